@@ -1,7 +1,8 @@
-"""Translator target Gen/BatchGen.v: the declarative parts of batch admission in
-jade/hpc/hpc_submitter.py (_BatchJobs.__init__/try_append/is_job_blocked, the pass bound and the
-loop-exit test of HpcSubmitter._make_batch, the queue-full test of JobQueue).  Fail closed: every
-extractor checks the exact syntactic shape it knows."""
+"""Translator target Gen/BatchGen.v: the admission comparisons of batch construction - the time test and
+the size test of _BatchJobs.try_append (jade/hpc/hpc_submitter.py) and the queue-full test of
+JobQueue.is_full (jade/jobs/job_queue.py) - as Coq boolean functions the model Batch.v is written over.
+Fail closed: every extractor checks the exact syntactic shape it knows.  Everything else of the batch code
+is tied to the model by differential correspondence (harness/batchdrv.py), not by translation."""
 import ast
 
 from harness.translate import Src, HEADER
@@ -23,35 +24,6 @@ def _strip_doc(body):
 
 def gen_batch():
     src = Src("jade/hpc/hpc_submitter.py")
-    # ---- _BatchJobs.__init__: which parameter feeds which field -------------------------------
-    init = src.func("__init__", "_BatchJobs")
-    want = {
-        "self._num_processes": "params.num_parallel_processes_per_node",
-        "self._per_node_batch_size": "params.per_node_batch_size",
-        "self._time_based_batching": "params.time_based_batching",
-        "self._try_add_blocked_jobs": "params.try_add_blocked_jobs",
-        "self._estimated_batch_time": "timedelta(seconds=0)",
-        "self._is_ready_to_submit": "False",
-    }
-    got = {}
-    max_time = None
-    for n in ast.walk(init):
-        if isinstance(n, ast.Assign) and len(n.targets) == 1:
-            t = _u(n.targets[0])
-            if t == "self._max_batch_time":
-                if max_time is None:
-                    max_time = []
-                max_time.append(_u(n.value))
-            elif t in want:
-                if t in got:
-                    src.fail(f"{t} assigned twice in _BatchJobs.__init__", n)
-                got[t] = _u(n.value)
-    for k, v in want.items():
-        if got.get(k) != v:
-            src.fail(f"_BatchJobs.__init__: expected {k} = {v}, found {got.get(k)}", init)
-    if sorted(max_time or []) != sorted(["params.get_wall_time() * self._num_processes", "None"]):
-        src.fail(f"_BatchJobs.__init__: _max_batch_time is not get_wall_time() * num_processes / None: {max_time}", init)
-
     # ---- try_append ----------------------------------------------------------------------------
     ta = src.func("try_append", "_BatchJobs")
     cmps = [n for n in ast.walk(ta) if isinstance(n, ast.Compare)]
@@ -82,20 +54,6 @@ def gen_batch():
     if [_u(s) for s in _strip_doc(nj.body)] != ["return len(self._jobs)"]:
         src.fail("_BatchJobs.num_jobs is not len(self._jobs)", nj)
 
-    # ---- is_job_blocked / are_blocking_jobs_present -------------------------------------------
-    ib = src.func("is_job_blocked", "_BatchJobs")
-    stm = [_u(s) for s in _strip_doc(ib.body)]
-    exp = ["if not job.blocked_by:\n    return False",
-           "if self._try_add_blocked_jobs and self.are_blocking_jobs_present(job.blocked_by):\n    return False",
-           "return True"]
-    norm = [" ".join(x.split()) for x in stm]
-    # comments are dropped by ast.unparse
-    if norm != [" ".join(x.split()) for x in exp]:
-        src.fail(f"is_job_blocked has an unknown shape: {norm}", ib)
-    ab = src.func("are_blocking_jobs_present", "_BatchJobs")
-    if [_u(s) for s in _strip_doc(ab.body)] != ["return blocking_jobs.issubset(self._job_names)"]:
-        src.fail("are_blocking_jobs_present is not blocking_jobs.issubset(self._job_names)", ab)
-
     # ---- JobQueue.is_full ---------------------------------------------------------------------------
     q = Src("jade/jobs/job_queue.py")
     isf = q.func("is_full", "JobQueue")
@@ -106,7 +64,7 @@ def gen_batch():
         q.fail("JobQueue.is_full is not `len(self._outstanding_jobs) <cmp> self._queue_depth`", isf)
     full_cmp = _NCMP[type(ret[0].value.ops[0])]
 
-    out = [HEADER % "jade/hpc/hpc_submitter.py (_BatchJobs.try_append, is_job_blocked), jade/jobs/job_queue.py (is_full)"]
+    out = [HEADER % "jade/hpc/hpc_submitter.py (_BatchJobs.try_append), jade/jobs/job_queue.py (JobQueue.is_full)"]
     out.append("Open Scope Z_scope.\n")
     out.append("(* try_append: `self._estimated_batch_time + timedelta(minutes=est) <op> self._max_batch_time`; all in seconds *)")
     out.append(f"Definition time_exceeded (batch_time est_seconds max_time : Z) : bool := {time_cmp} (batch_time + est_seconds) max_time.\n")
